@@ -19,7 +19,9 @@ CONSTANTS MaxLive,   \* live blocks incl. the oldest one
           MaxBal,    \* endorsor balances stay within 0..MaxBal units
           Kinds,     \* tx kinds on offer
           Ords,      \* order facts on offer
-          Window     \* BOOLEAN
+          Window,    \* BOOLEAN
+          AliasSafe  \* BOOLEAN: never re-use the id of a pruned block while a cache entry still shares a slice read there
+                     \* (needed only when a rule that forbids writing into shared slices is switched off)
 
 Tx(k, m, v) == [k |-> k, m |-> m, v |-> v]
 Flat(n) == 0
@@ -43,7 +45,10 @@ Sane(W) ==
   /\ \A m \in Masters : W.bal[m] <= MaxBal
   /\ PosActive(W) => Cardinality({v \in Range(W.lgo) : W.val[v].exitB = 0}) >= 1
 
-NewId == CHOOSE i \in 0..MaxLive : i \notin DOMAIN blocks /\ \A j \in 0..(i - 1) : j \in DOMAIN blocks
+\* the smallest id that names no live block - and, with AliasSafe, no slice behind a cache entry (the id of a pruned block
+\* is re-used; harmless as long as nothing is ever written into a shared slice, i.e. with the rules of the code)
+UsedIds == DOMAIN blocks \cup (IF AliasSafe THEN UNION {{vcache[n][x].id : x \in DOMAIN vcache[n]} : n \in Nodes} ELSE {})
+NewId == CHOOSE i \in 0..(2 * MaxLive + 1) : i \notin UsedIds /\ \A j \in 0..(i - 1) : j \in UsedIds
 
 MCPack ==
   /\ Cardinality(DOMAIN blocks) < MaxLive
